@@ -13,6 +13,8 @@
 #include <fcntl.h>
 #include <functional>
 #include <set>
+#include <poll.h>
+#include <sstream>
 #include <sys/mman.h>
 #include <sys/resource.h>
 #include <sys/stat.h>
@@ -181,44 +183,100 @@ struct Kernel {
   // and of course when it dies; the result vector then is a proper prefix and
   // the caller re-submits the rest.  Every returned result is complete in
   // itself (own event hash, own counters).
-  std::vector<RunResult> execute_batch(const std::vector<const Plan*>& plans) {
-    std::vector<RunResult> out;
-    int pfd[2];
-    if (pipe(pfd) != 0) { perror("pipe"); _exit(2); }
-    sh->cur_op = -1; sh->in_branch = 0; sh->kind[0] = 0; sh->fault[0] = 0; sh->note[0] = 0; sh->scratch[15] = -1;
+  // ---- zygote: a process forked right after warm-up, before the worker has done anything else.  It never
+  // allocates; it only reads a request into a static buffer and forks the child that executes it.  Every
+  // execution of a plan therefore starts from the same process image (same heap layout), whatever this
+  // worker has done before - which is what makes even undefined behaviour replay.
+  int z_ctl = -1, z_res = -1, z_st = -1;
+  pid_t z_pid = -1;
+  static const size_t ZBUF = 1 << 22;
+
+  void start_zygote() {
+    int ctl[2], res[2], st[2];
+    if (pipe(ctl) || pipe(res) || pipe(st)) { perror("pipe"); _exit(2); }
     fflush(stdout); fflush(stderr);
-    pid_t c = fork();
-    if (c < 0) { perror("fork"); _exit(2); }
-    if (c == 0) {
-      close(pfd[0]);
-      if (!stderr_path.empty()) {
-        int e = open(stderr_path.c_str(), O_WRONLY | O_CREAT | O_TRUNC, 0644);
-        if (e >= 0) { dup2(e, 2); close(e); }
-      }
-      struct rlimit rl; rl.rlim_cur = 8u << 20; rl.rlim_max = RLIM_INFINITY;
-      setrlimit(RLIMIT_STACK, &rl);
-      struct rlimit core; core.rlim_cur = core.rlim_max = 0; setrlimit(RLIMIT_CORE, &core);
-      std::set_terminate([]() { _exit(78); });
-      for (size_t j = 0; j < plans.size(); ++j) {
-        alarm((unsigned) hs.child_seconds());
-        sh->scratch[15] = (long) j; sh->cur_op = -1; sh->in_branch = 0; sh->kind[0] = 0; sh->fault[0] = 0; sh->note[0] = 0;
-        Ctx ctx; ctx.plan = plans[j]; ctx.sh = sh; ctx.out_fd = pfd[1];
-        hs.run(*plans[j], ctx);
-        bool stop = !ctx.viols.empty();
-        ctx.flush(true);
-        if (stop) break;
-      }
+    z_pid = fork();
+    if (z_pid < 0) { perror("fork"); _exit(2); }
+    if (z_pid == 0) {
+      close(ctl[1]); close(res[0]); close(st[0]);
+      zygote_loop(ctl[0], res[1], st[1]);
       _exit(0);
     }
-    close(pfd[1]);
-    std::string data; char buf[65536]; ssize_t r;
-    while ((r = read(pfd[0], buf, sizeof buf)) != 0) {
-      if (r < 0) { if (errno == EINTR) continue; break; }
-      data.append(buf, (size_t) r);
+    close(ctl[0]); close(res[1]); close(st[1]);
+    z_ctl = ctl[1]; z_res = res[0]; z_st = st[0];
+    fcntl(z_res, F_SETFL, fcntl(z_res, F_GETFL) | O_NONBLOCK);
+  }
+  static bool read_full(int fd, void* buf, size_t n) { size_t off = 0; while (off < n) { ssize_t r = read(fd, (char*) buf + off, n - off); if (r < 0 && errno == EINTR) continue; if (r <= 0) return false; off += (size_t) r; } return true; }
+  static bool write_full(int fd, const void* buf, size_t n) { size_t off = 0; while (off < n) { ssize_t r = write(fd, (const char*) buf + off, n - off); if (r < 0 && errno == EINTR) continue; if (r <= 0) return false; off += (size_t) r; } return true; }
+
+  void zygote_loop(int ctl, int res, int st) {
+    static char buf[ZBUF];
+    static char errpath[512];
+    while (true) {
+      unsigned len = 0, elen = 0;
+      if (!read_full(ctl, &len, sizeof len) || len >= ZBUF) _exit(0);
+      if (!read_full(ctl, &elen, sizeof elen) || elen >= sizeof errpath) _exit(0);
+      if (elen && !read_full(ctl, errpath, elen)) _exit(0);
+      errpath[elen] = 0;
+      if (!read_full(ctl, buf, len)) _exit(0);
+      buf[len] = 0;
+      pid_t c = fork();
+      if (c < 0) _exit(3);
+      if (c == 0) {
+        close(ctl); close(st);
+        if (elen) { int e = open(errpath, O_WRONLY | O_CREAT | O_TRUNC, 0644); if (e >= 0) { dup2(e, 2); close(e); } }
+        struct rlimit rl; rl.rlim_cur = 8u << 20; rl.rlim_max = RLIM_INFINITY;
+        setrlimit(RLIMIT_STACK, &rl);
+        struct rlimit core; core.rlim_cur = core.rlim_max = 0; setrlimit(RLIMIT_CORE, &core);
+        std::set_terminate([]() { _exit(78); });
+        // the request: plans separated by a line "\x1e"
+        std::vector<Plan> plans;
+        {
+          std::string all(buf, len); size_t p = 0;
+          while (p < all.size()) {
+            size_t e = all.find("\x1e\n", p);
+            std::string one = all.substr(p, e == std::string::npos ? std::string::npos : e - p);
+            p = e == std::string::npos ? all.size() : e + 2;
+            Plan pl; std::string err; std::istringstream in(one);
+            if (pl.parse(in, err)) plans.push_back(pl);
+          }
+        }
+        for (size_t j = 0; j < plans.size(); ++j) {
+          alarm((unsigned) hs.child_seconds());
+          sh->scratch[15] = (long) j; sh->cur_op = -1; sh->in_branch = 0; sh->kind[0] = 0; sh->fault[0] = 0; sh->note[0] = 0;
+          Ctx ctx; ctx.plan = &plans[j]; ctx.sh = sh; ctx.out_fd = res;
+          hs.run(plans[j], ctx);
+          bool stop = !ctx.viols.empty();
+          ctx.flush(true);
+          if (stop) break;
+        }
+        _exit(0);
+      }
+      int status = 0;
+      while (waitpid(c, &status, 0) < 0 && errno == EINTR) {}
+      if (!write_full(st, &status, sizeof status)) _exit(0);
     }
-    close(pfd[0]);
-    int st = 0;
-    while (waitpid(c, &st, 0) < 0 && errno == EINTR) {}
+  }
+
+  std::vector<RunResult> execute_batch(const std::vector<const Plan*>& plans) {
+    std::vector<RunResult> out;
+    if (z_pid < 0) start_zygote();
+    sh->cur_op = -1; sh->in_branch = 0; sh->kind[0] = 0; sh->fault[0] = 0; sh->note[0] = 0; sh->scratch[15] = -1;
+    std::string req;
+    for (size_t j = 0; j < plans.size(); ++j) { Plan p = *plans[j]; p.comment.clear(); req += p.text(); req += "\x1e\n"; }
+    unsigned len = (unsigned) req.size(), elen = (unsigned) stderr_path.size();
+    if (len >= ZBUF || !write_full(z_ctl, &len, sizeof len) || !write_full(z_ctl, &elen, sizeof elen)
+        || (elen && !write_full(z_ctl, stderr_path.data(), elen)) || !write_full(z_ctl, req.data(), len)) { fprintf(stderr, "kit: zygote request failed\n"); _exit(2); }
+    // drain results until the zygote reports the child's exit status
+    std::string data; char buf[65536]; int st = 0; bool have_st = false;
+    while (!have_st) {
+      struct pollfd pf[2] = { { z_res, POLLIN, 0 }, { z_st, POLLIN, 0 } };
+      int pr = poll(pf, 2, -1);
+      if (pr < 0) { if (errno == EINTR) continue; perror("poll"); _exit(2); }
+      if (pf[0].revents & POLLIN) { ssize_t r; while ((r = read(z_res, buf, sizeof buf)) > 0) data.append(buf, (size_t) r); }
+      if (pf[1].revents & (POLLIN | POLLHUP)) { if (!read_full(z_st, &st, sizeof st)) { fprintf(stderr, "kit: zygote died\n"); _exit(2); } have_st = true; }
+    }
+    { ssize_t r; while ((r = read(z_res, buf, sizeof buf)) > 0) data.append(buf, (size_t) r); }
     // split the stream at the end-of-run markers
     size_t p = 0;
     while (p < data.size()) {
@@ -385,10 +443,8 @@ struct BatchOpts {
   int shrink_budget = 300;
 };
 
-static int worker_main(Harness& hs, const BatchOpts& o, long w) {
-  Kernel k(hs);
+static int worker_main(Harness& hs, Kernel& k, const BatchOpts& o, long w) {
   k.stderr_path = o.out + "/w" + std::to_string(w) + ".stderr";
-  hs.warmup();
   std::string resp = o.out + "/w" + std::to_string(w) + ".res";
   FILE* res = fopen(resp.c_str(), "w");
   if (!res) { perror(resp.c_str()); return 2; }
@@ -479,31 +535,39 @@ static int worker_main(Harness& hs, const BatchOpts& o, long w) {
 }
 
 static int kit_main(int argc, char** argv, Harness& hs) {
-  std::string mode = argc > 1 ? argv[1] : "";
-  auto argval = [&](const char* name, const char* dflt) -> std::string {
-    for (int i = 2; i + 1 < argc; ++i) if (std::string(argv[i]) == name) return argv[i + 1];
+  // The zygote must be created before this process does anything that depends on its arguments, so that
+  // batch workers and a later `replay` start their children from the same image: only C-string scanning here.
+  const char* cmode = argc > 1 ? argv[1] : "";
+  auto rawarg = [&](const char* name, const char* dflt) -> const char* {
+    for (int i = 2; i + 1 < argc; ++i) if (!strcmp(argv[i], name)) return argv[i + 1];
     return dflt;
   };
-  if (mode == "batch") {
-    BatchOpts o;
-    o.prop = argval("--prop", "");
-    o.out = argval("--out", "out/tmp");
-    o.tier = argval("--tier", "quick");
-    o.seed = strtoull(argval("--seed", "1").c_str(), nullptr, 10);
-    o.runs = atol(argval("--runs", "100").c_str());
-    o.first = atol(argval("--first", "0").c_str());
-    o.workers = atol(argval("--workers", "8").c_str());
-    o.max_s = atof(argval("--max-s", "1e9").c_str());
-    o.det = argval("--det", "0") == "1";
-    o.need_fault = argval("--need-fault", "0") == "1";
-    o.batch = std::max(1L, atol(argval("--batch", "1").c_str()));
-    o.shrink_budget = atoi(argval("--shrink-budget", "300").c_str());
-    std::string mk = "mkdir -p " + o.out; if (system(mk.c_str()) != 0) return 2;
+  if (!strcmp(cmode, "batch")) {
+    long workers = atol(rawarg("--workers", "8"));
+    { char mk[600]; snprintf(mk, sizeof mk, "mkdir -p %s", rawarg("--out", "out/tmp")); if (system(mk) != 0) return 2; }
     std::vector<pid_t> kids;
-    for (long w = 0; w < o.workers; ++w) {
+    for (long w = 0; w < workers; ++w) {
       fflush(stdout);
       pid_t c = fork();
-      if (c == 0) _exit(worker_main(hs, o, w));
+      if (c == 0) {
+        Kernel k(hs);
+        hs.warmup();
+        k.start_zygote();
+        BatchOpts o;
+        o.prop = rawarg("--prop", "");
+        o.out = rawarg("--out", "out/tmp");
+        o.tier = rawarg("--tier", "quick");
+        o.seed = strtoull(rawarg("--seed", "1"), nullptr, 10);
+        o.runs = atol(rawarg("--runs", "100"));
+        o.first = atol(rawarg("--first", "0"));
+        o.workers = workers;
+        o.max_s = atof(rawarg("--max-s", "1e9"));
+        o.det = !strcmp(rawarg("--det", "0"), "1");
+        o.need_fault = !strcmp(rawarg("--need-fault", "0"), "1");
+        o.batch = std::max(1L, atol(rawarg("--batch", "1")));
+        o.shrink_budget = atoi(rawarg("--shrink-budget", "300"));
+        _exit(worker_main(hs, k, o, w));
+      }
       kids.push_back(c);
     }
     int bad = 0;
@@ -511,13 +575,14 @@ static int kit_main(int argc, char** argv, Harness& hs) {
     if (bad) { fprintf(stderr, "kit: %d worker(s) failed\n", bad); return 2; }
     return 0;
   }
-  if (mode == "replay") {
+  if (!strcmp(cmode, "replay")) {
     if (argc < 3) return 2;
+    Kernel k(hs);
+    hs.warmup();
+    k.start_zygote();
     Plan plan; std::string err;
     if (!plan.load(argv[2], err)) { fprintf(stderr, "replay: %s\n", err.c_str()); return 2; }
-    Kernel k(hs);
-    k.stderr_path = argval("--stderr", "");
-    hs.warmup();
+    k.stderr_path = rawarg("--stderr", "");
     RunResult rr = k.execute(plan);
     int bad = 0;
     for (auto& v : rr.viols) {
@@ -525,9 +590,11 @@ static int kit_main(int argc, char** argv, Harness& hs) {
       if (v.prop == plan.prop) ++bad;
     }
     printf("hash\t%llx\tops\t%ld\tfaults\t%ld\tcomplete\t%d\n", (unsigned long long) rr.h, rr.ops_done, rr.faults_fired, (int) rr.complete);
-    if (argval("--stats", "0") == "1") for (auto& s : rr.stats) printf("stat\t%s\t%ld\n", s.first.c_str(), s.second);
+    if (!strcmp(rawarg("--stats", "0"), "1")) for (auto& s : rr.stats) printf("stat\t%s\t%ld\n", s.first.c_str(), s.second);
     return bad ? 1 : 0;
   }
+  std::string mode = cmode;
+  auto argval = [&](const char* name, const char* dflt) -> std::string { return rawarg(name, dflt); };
   if (mode == "gen") {
     std::string prop = argval("--prop", "");
     u64 seed = strtoull(argval("--seed", "1").c_str(), nullptr, 10);
